@@ -1,7 +1,10 @@
 #!/bin/bash
-# Offline build of the checker from files on disk only.
+# Offline build of the checker from files on disk only, followed by the
+# regular-language engine's self-test against package regexp (checker and
+# standard library only; no repository code is involved).
 cd "$(dirname "$0")"
 . ./env.sh
 mkdir -p bin evidence
 (cd checker && go build -o ../bin/safecheck .) || exit 1
+(cd checker && go test -count=1 ./relang/) || { echo "relang self-test failed"; exit 1; }
 bin/safecheck -list
